@@ -916,6 +916,9 @@ func (g *jsGen) stmt() string {
 			g.push(false)
 			if k == 0 {
 				sb.WriteString("catch" + g.block())
+			} else if r.Chance(1, 3) {
+				// an unused binding whose source name is one of the first short names the renamer hands out
+				sb.WriteString("catch(" + r.Pick([]string{"e", "t", "n", "r", "i"}) + "){" + g.stmt() + g.stmt() + "}")
 			} else {
 				e := g.declare("catch")
 				sb.WriteString("catch(" + e + "){h(" + g.nextSite() + "," + e + ");" + g.stmt() + "}")
